@@ -329,6 +329,32 @@ func loopTerminates(c *core.Ctx, p *prover.F, l *prover.Loop) (string, bool) {
 			tried = append(tried, fmt.Sprintf("%s progresses (dir %+d) but no loop-invariant bound was provable", ph.Name(), dir))
 		}
 	}
+	// shrinking-slice loops: a slice-typed header phi whose length strictly decreases on every back edge (len >= 0 is the bound)
+	for _, ins := range l.Header.Instrs {
+		ph, ok := ins.(*ssa.Phi)
+		if !ok {
+			break
+		}
+		if _, isSlice := ph.Type().Underlying().(*types.Slice); !isSlice {
+			continue
+		}
+		phl := p.LenOf(ph)
+		shrinks := true
+		for i, pred := range l.Header.Preds {
+			if !isLatch[pred] {
+				continue
+			}
+			goal := phl.Add(p.LenOf(ph.Edges[i]), -1).Add(prover.Const(1), -1) // len(s) - len(s') - 1 >= 0
+			if ok, _ := p.Prove(pred, goal, p.EdgeFacts(pred, l.Header)); !ok {
+				shrinks = false
+				break
+			}
+		}
+		if shrinks {
+			return fmt.Sprintf("ranking function len(%s): the slice shrinks by at least one element on every back edge", ph.Name()), true
+		}
+		tried = append(tried, fmt.Sprintf("len(%s) is not provably decreasing on every back edge", ph.Name()))
+	}
 	// reader-progress loops
 	if why, ok := readerProgress(c, p, l); ok {
 		return why, true
